@@ -484,6 +484,17 @@ parsec_set_up_reshape_promise(parsec_execution_stream_t *es,
     }
 
 
+    /* The generated iterate_successors resets data->data_future only once per flow, while
+     * parsec_create_reshape_promise shares it between consecutive dependencies under the
+     * assumption that it is reset whenever the reshape type changes. Drop a promise left
+     * over from a dependency with a different reshape type, otherwise this successor
+     * would silently receive the copy (or the conversion) meant for the previous one. */
+    if( (data->data_future != NULL) &&
+        (0 == parsec_reshape_check_match_datatypes((parsec_base_future_t*)data->data_future,
+                                                   data->data_future->cb_match_data_in, data)) ) {
+        data->data_future = NULL;
+    }
+
     if(    ( parsec_type_match(data->local.dst_datatype, PARSEC_DATATYPE_NULL) == PARSEC_SUCCESS) /* No reshape dtt on dep: fulfilled reshape promise */
         || ( parsec_type_match(data->local.dst_datatype, data->data->dtt) == PARSEC_SUCCESS) )     /* Same dtt: fulfilled reshape promise*/
     {
